@@ -19,7 +19,9 @@ func init() { register("C20", checkC20) }
 
 type valMarshaler struct{ N int }
 
-func (m valMarshaler) MarshalValue() data.Value { return data.String(fmt.Sprintf("val-marshaled-%d", m.N)) }
+func (m valMarshaler) MarshalValue() data.Value {
+	return data.String(fmt.Sprintf("val-marshaled-%d", m.N))
+}
 
 type ptrMarshaler struct{ N int }
 
@@ -34,15 +36,15 @@ type inner struct {
 type Embedded struct{ EmbField string }
 
 type outer struct {
-	Name     string
-	URLPath  string
-	private  int
-	Ptr      *inner
-	NilPtr   *inner
-	Inner    inner
-	Any      interface{}
-	List     []interface{}
-	M        map[string]int
+	Name    string
+	URLPath string
+	private int
+	Ptr     *inner
+	NilPtr  *inner
+	Inner   inner
+	Any     interface{}
+	List    []interface{}
+	M       map[string]int
 	Embedded
 	When time.Time
 	PM   *ptrMarshaler
